@@ -9,6 +9,9 @@ require (
 	pault.ag/go/debian v0.0.0
 )
 
-require pault.ag/go/topsort v0.1.1 // indirect
+require (
+	github.com/xi2/xz v0.0.0-20171230120015-48954b6210f8 // indirect
+	pault.ag/go/topsort v0.1.1 // indirect
+)
 
 replace pault.ag/go/debian => /repo
